@@ -60,7 +60,16 @@ CFG = {
              "under 0.75 so the cast is 0 like the exact floor): norm = floor(clamp01(v)*65534 + 1/2), NaN and "
              "everything >= 1 incl. +inf give 65534, negatives, -0 and -inf give 0, hence the stored code is C12's "
              "Quant.sencode 16 of the value, within half a SNORM16 step of the clamped input; R16_SNORM, R16G16_SNORM, "
-             "R16G16B16A16_SNORM encode every pixel to exactly the 16-bit field packing; (4) the only data-dependent loop of the block encoders (bcn_util::refine_endpoints) runs at "
+             "R16G16B16A16_SNORM encode every pixel to exactly the 16-bit field packing; (3d) the float -> integer sites of "
+             "the block encoders (EncBcSites.lean: trapping mirrors on bit patterns, glam min/max/clamp = SSE2 "
+             "minps/maxps): glam clamp(0,1) maps every pattern to [+0,1]; EndPoints::quantize / new_inter6 of bc4.rs "
+             "(UNORM and SNORM) for EVERY pair of patterns - no u8 underflow of 255-x / 254-x / min-=1, "
+             "debug_assert!(min < max), both s8::from_norm assertions and c0 != c1 hold (floor(K x)+floor(K (1-x)) <= K "
+             "by monotone x antitone + 256 checked cut points); new_closest on [0,1]; reference_brute_force bounds; "
+             "INDEX_MAP[blend7]; R5G6B5Color::round/floor/ceil (<32/<64/<32) and the u8 arithmetic of optimal_channel; "
+             "bc7 channel_round/floor/ceil::<4..8> (<= MAX, guarded +-1) for every pattern. NOT proved: assertions on "
+             "float values (Inter6Palette::new c0 != c1, best_error.is_finite(), best_c0 <= best_c1); "
+             "(4) the only data-dependent loop of the block encoders (bcn_util::refine_endpoints) runs at "
              "most max_iter <= 10 times at every quality, whatever the float comparison does; (5) empty images give "
              "Ok and zero bytes in every family (incl. the repaired bi-planar path) even with a writer that accepts "
              "nothing. " + M_CLAIM +
@@ -110,6 +119,9 @@ CFG = {
             "+-1 and +-0.5 +-2 ulp, the exact ties 0.25/0.75 +-1 ulp, 2^-53 region), every exponent field x 6 fractions (both signs), the rounding "
             "boundary (k+0.5)/65534 +-2 ulp of ~670 codes k (first/last 40, powers of two, every 131st; thorough: every "
             "17th and every code once), 2 500 (thorough 60 000) PRNG pixels per format; "
+            "(h) the 12 block formats x {flat: one boundary colour per image (k/31, k/63, k/255, k/254, k/15, k/127 +-3 ulp, "
+            "1.0, +-0.0), close2: two values closer than one code, edge: 1.0/-0.0/+0.0/NaN/min-subnormal/boundary "
+            "values mixed} x 4 qualities x 4 f32 colours x 5 (thorough 40) seeds; "
             "(g) PRNG over the whole quantifier. Every f32 case with "
             "non-ordinary content is run a second time with ordinary content and must give the same kind and "
             "length. non-trivial = result ok / err Io / px (bytes produced or a fault propagated); distinct = "
@@ -163,6 +175,8 @@ def classify(c, r):
         return f"Q {res}"
     if t[0] == "W":
         return f"W {_f32_class(int(t[2]))} -> {res}"
+    if t[0] == "T":
+        return f"T {t[1]} {_f32_class(int(t[2]))} -> {r.split(' ')[0]}"
     try:
         fam = ("bc" if t[2].startswith("BC") and not t[2].startswith("BC6") else
                "noenc" if t[2].startswith("ASTC") or t[2].startswith("BC6") else
@@ -186,6 +200,15 @@ def equal(a, b, case=None):
     NaN channel only 'a pixel was produced' is compared; every other case is compared exactly."""
     if a == b:
         return True
+    # `T` cases: a is the implementation, b the model; `search` = the encoder left the modelled early-return path
+    # (palette / candidate search, float bodies): the model makes no prediction, only panics/hangs are judged
+    if case and case.startswith("T ") and b == "search":
+        return a.split(" ")[0] in ("blk", "ends")
+    # BC4 outside the early return: the model predicts the two endpoint bytes (`EndPoints::new_inter6(value, value)`),
+    # not their order (inter6 / inter4, chosen by a float error comparison) nor the indexes
+    if case and case.startswith("T ") and b.startswith("pair "):
+        t = a.split(" ")
+        return t[0] == "blk" and len(t) == 9 and sorted(map(int, t[1:3])) == sorted(map(int, b.split(" ")[1:3]))
     if case and case.startswith("Q ") and "nan" in case.split(" ")[2:]:
         return a.split(" ")[0] == b.split(" ")[0] == "px"
     return False
